@@ -219,6 +219,16 @@ def rule_inventory(ck):
     need = {("deferred", "TryCompute.depth"), ("deferred", "Awaiting.awaiting_stack"), ("reports", "handle_reports.handlers_stack"), ("deferred", "Deferred.next_instance_id"),
             ("insns", "instructions"), ("metacommand_impl", "metacommands"), ("builtins", "builtin_commands"), ("formats", "file_formats")}
     missing = need - set(writes) - {k for k in need if k in objs}      # still defined, just no longer written after its definition: fine
+    # state that moved from the class to the one instance the module creates (self.depth = 0 in __init__ of a module-level singleton) is the same object
+    for k in list(missing):
+        cname, _, attr = k[1].partition(".")
+        try:
+            cls_ = repo.cls(f"{k[0]}::{cname}")
+        except Exception:
+            continue
+        init = next((m for m in cls_.body if isinstance(m, ast.FunctionDef) and m.name == "__init__"), None)
+        if init is not None and any(isinstance(a, ast.Assign) and any(isinstance(t, ast.Attribute) and t.attr == attr and norm_text(t.value) == "self" for t in a.targets) for a in ast.walk(init)):
+            missing.discard(k)
     if missing:
         ck.unknown(f"global objects confirmed by hand no longer exist: {sorted(missing)}")
     # inert counter: uses of next_instance_id
